@@ -158,13 +158,15 @@ class SetupRiemannProblem(object):
     
     
     def determine_shock_angle(self, state):
-        angle = self.deflection_angle_solution
-        _, _, M, _, g = state
+        _, _, M, theta0_deg, g = state
+        theta0_rad = theta0_deg / 180. * pi
+        # the theta-beta-M relation holds for angles measured from the inflow direction
+        angle = self.deflection_angle_solution - theta0_rad
         def get_shock_contact_angle(x):
             val  = 2. / tan(x) * (M**2 * sin(x)**2 - 1.)
             val /= (2. + M**2 * (g + cos(2. * x)))
             return val
-        return fsolve(lambda x:
+        return theta0_rad + fsolve(lambda x:
                       get_shock_contact_angle(x)-tan(angle), angle)[0]
     
 
